@@ -58,6 +58,9 @@ def gen_ir(r, fmt):
             # code-quoted (non-literal) defaults under container / dotted types: they take the generic, not the scalar, emitter branch
             p["typ"] = r.choice(["List[int]", "Dict[int, float]", "Optional[List[int]]", "np.ndarray", "Callable[[int], int]"])
             p["default"] = r.choice(["```make_callbacks()```", "```np.zeros(3)```", "```[1, 2]```", "```lambda x: x```"])
+    for p in ir["params"].values():  # dictionary-guided search (inactive unless a constant table differs from the snapshot)
+        if "doc" in p:
+            p["doc"] = core.spice(r, p["doc"])
     if r.random() < 0.3:
         ir["doc"] = r.choice(["Summary line.\n\nLonger description\nover two lines.", "  Indented summary", "Summary"])
     if r.random() < 0.05:
